@@ -23,6 +23,11 @@ def setup():
 
 
 def main():
+    import logging
+    import warnings
+    warnings.simplefilter("ignore")
+    logging.getLogger("gradflow").setLevel(logging.ERROR)
+    logging.getLogger("pygradflow").setLevel(logging.ERROR)
     ap = argparse.ArgumentParser()
     ap.add_argument("prop", nargs="?")
     ap.add_argument("--setup", action="store_true")
